@@ -297,4 +297,8 @@ theorem C01_entry_dispatch_is_the_source_text (c : Ctx) (s : Scope) (i : Nat) (q
     getAtIndexGen c s i = c.getAtIndex s i ∧ getKeyAtIndexGen c s i = c.getKeyAtIndex s i ∧
     getObjPropGen c s q = c.getObjProp s q := gen_read_entries_eq c s i q
 
+/-- the same for the lookup by interned name -/
+theorem C01_interned_entry_dispatch_is_the_source_text (c : Ctx) (s : Scope) (q : Bytes) :
+    getInternedObjPropGen c s q = c.getObjProp s q := gen_interned_entry_eq c s q
+
 end SfVerif.Props.C01
